@@ -17,7 +17,7 @@ func init() { register(&Spec{ID: "C05", Targets: allTargets, Run: runC05}) }
 
 func runC05(c *core.Ctx) {
 	runFixtures(c, "drop", "valid", "dirnamed")
-	c.Explain("Structural clauses of C05 decided from source by an abstract interpretation of error values (nil / *PathError or *LinkError with the provenance of each path field / error of a file-system interface call with the provenance of the path it was given / raw), with per-function summaries substituted at call sites, on linux, windows and js/wasm builds, for every method of every FS type that implements an io/fs.FS / hackpadfs.*FS method and every package-level helper taking an FS: (R05.1) no raw error (bare sentinel, errors.New/fmt.Errorf, store/record/handler/io error) is returned: every possibly non-nil error is a *PathError (single-name operations) or *LinkError (Rename, Symlink), the error of an interface call that received the caller's name, or such an error passed through a translator; (R05.2) path fields come from the caller's name (the parameter, or a path derived from it), never the empty constant, a Mount sub-path (inner namespace), an OS path, a base name or an untracked string; an error of a call made with an inner or OS path must pass through the translator with the (name, subPath) pair of the Mount call that produced the inner path; LinkError.Old/New come from the old/new parameter respectively; (R05.3) the mount translator can produce a path longer than its input (it concatenates a name-derived prefix) — a trim-only translator cannot be right for a real mount point; (R05.4 = R08.3, checked under C08). (R05.6) a write-back error is wrapped under the path of the record written; (R05.7) a missing name below a regular file is told apart from a missing name (known finding); (R05.8) no error outside MkdirAll/RemoveAll names path.Dir of a name; (R05.9) the error of a recursive call on other names is re-wrapped under the caller's names. (R05.10) two-name helpers translate their delegate's error with both names; (R05.11) the mount translator compares the failing path only within its own namespace; (R05.12) a failing path above a view's base or the OS root is reported as \".\". (R05.13) the not-a-directory edge of a parent look-up in the key-value FS is classified ErrNotDir. NOT claimed: that the path equals the one package os would name; sentinel agreement with os per situation; correctness of the translator's string arithmetic beyond R05.3.")
+	c.Explain("Structural clauses of C05 decided from source by an abstract interpretation of error values (nil / *PathError or *LinkError with the provenance of each path field / error of a file-system interface call with the provenance of the path it was given / raw), with per-function summaries substituted at call sites, on linux, windows and js/wasm builds, for every method of every FS type that implements an io/fs.FS / hackpadfs.*FS method and every package-level helper taking an FS: (R05.1) no raw error (bare sentinel, errors.New/fmt.Errorf, store/record/handler/io error) is returned: every possibly non-nil error is a *PathError (single-name operations) or *LinkError (Rename, Symlink), the error of an interface call that received the caller's name, or such an error passed through a translator; (R05.2) path fields come from the caller's name (the parameter, or a path derived from it), never the empty constant, a Mount sub-path (inner namespace), an OS path, a base name or an untracked string; an error of a call made with an inner or OS path must pass through the translator with the (name, subPath) pair of the Mount call that produced the inner path; LinkError.Old/New come from the old/new parameter respectively; (R05.3) the mount translator can produce a path longer than its input (it concatenates a name-derived prefix) — a trim-only translator cannot be right for a real mount point; (R05.4 = R08.3, checked under C08). (R05.6) a write-back error is wrapped under the path of the record written; (R05.7) a missing name below a regular file is told apart from a missing name (known finding); (R05.8) no error outside MkdirAll/RemoveAll names path.Dir of a name; (R05.9) the error of a recursive call on other names is re-wrapped under the caller's names. (R05.10) two-name helpers translate their delegate's error with both names; (R05.11) the mount translator compares the failing path only within its own namespace; (R05.12) a failing path above a view's base or the OS root is reported as \".\". (R05.13) the not-a-directory edge of a parent look-up in the key-value FS is classified ErrNotDir. (R05.14) no helper falls back to io/fs.ReadDir. NOT claimed: that the path equals the one package os would name; sentinel agreement with os per situation; correctness of the translator's string arithmetic beyond R05.3.")
 	c.Assume("A1: an interface-dispatched FS method returns *PathError/*LinkError naming the path it was given", "A2: standard os functions return *PathError/*LinkError/*SyscallError naming the OS path they were given",
 		"errors of File methods (handle.Stat/Close/Read…) are the handle's own and accepted as they are")
 	c.RuleDoc("R05.1", "typed errors only (no raw error leaves an FS-level entry point)")
